@@ -245,14 +245,14 @@ End AsgFacts.
 (* ---------------------------------------------------------------------------------------------- *)
 (* generalize_ub: the generalisation of a type accepts that type *)
 
-(* What the statement needs of the type (all guaranteed by the Go constructors for finite bounds):
-   integer bounds are int64, float bounds are finite, sizes are non-negative int64, Struct member names are
+(* What the statement needs of the type (all guaranteed by the Go constructors):
+   integer bounds are int64, float bounds are order keys of floats (between the keys of -Inf and +Inf), sizes are non-negative int64, Struct member names are
    distinct, no constructor outside the model, and — `dedup_exact` — UniqueTypes drops from the generalised
    members of a Variant only structurally equal duplicates. *)
 Fixpoint gen_ok (t : ty) : bool :=
   match t with
   | TInteger lo hi => (MinI <=? lo) && (hi <=? MaxI)
-  | TFloat lo hi => (- MaxF <=? lo) && (hi <=? MaxF)
+  | TFloat lo hi => (- InfF <=? lo) && (hi <=? InfF)
   | TCollection lo hi => (0 <=? lo) && (hi <=? MaxI)
   | TArray e lo hi => (0 <=? lo) && (hi <=? MaxI) && gen_ok e
   | THash k v lo hi => (0 <=? lo) && (hi <=? MaxI) && gen_ok k && gen_ok v
@@ -468,13 +468,13 @@ Section Detailed.
     - cbn [mk_variant]. change (existsb (fun t => I t v) (u0 :: u1 :: us) = true). apply existsb_exists. eauto.
   Qed.
 
-  (* the values the theorems range over: no NaN (finding C04/nonfinite-float), nothing outside the model,
+  (* the values the theorems range over: nothing outside the model,
      hash keys that are strings are pairwise different (C09's invariant), a type used as a value accepts itself
      (in the code by the pointer shortcut `a == b` of GuardedIsAssignable, types.go:113), and UniqueTypes drops
      only structurally equal duplicates from the detailed key/value types of a hash *)
   Fixpoint dv_ok (v : value) : bool :=
     match v with
-    | VNaN | VOther _ => false
+    | VOther _ => false
     | VType t => A t t
     | VArr vs => forallb dv_ok vs
     | VHash es =>
@@ -499,7 +499,7 @@ Section Detailed.
     induction v using value_ind'; intros Hok; cbn [dv_ok] in Hok; try discriminate; try reflexivity.
     - (* Bool *) cbn. apply eqb_reflx.
     - (* Int *) cbn. apply in_size_refl.
-    - (* Float *) cbn. apply in_size_refl.
+    - (* Float *) cbn. rewrite in_size_refl. reflexivity.
     - (* Str *) cbn. apply str_eqb_refl.
     - (* Regexp *) cbn. rewrite str_eqb_refl. apply orb_true_r.
     - (* Arr *) destruct vs as [|x r]; [reflexivity|]. rewrite D_arr_cons, inst_tuple, in_size_refl. cbn [andb].
@@ -672,7 +672,10 @@ Section DetailedSound.
     - (* Bool *) destruct T; try discriminate Hb; cbn in Hr; try (dead Hr); try reflexivity.
       cbn. destruct v as [x|]; [|reflexivity]. cbn in Hr. apply eqb_prop in Hr. subst. apply eqb_reflx.
     - (* Int *) destruct T; try discriminate Hb; cbn in Hr; try (dead Hr); try reflexivity. exact Hr.
-    - (* Float *) destruct T; try discriminate Hb; cbn in Hr; try (dead Hr); try reflexivity. exact Hr.
+    - (* Float *) destruct T; try discriminate Hb; cbn in Hr; try (dead Hr); try reflexivity.
+      change (in_size lo hi k = true) in Hr. cbn [inst]. rewrite Hr. reflexivity.
+    - (* NaN: its type is the unbounded Float type *)
+      destruct T; try discriminate Hb; cbn in Hr; try (dead Hr); try reflexivity. exact Hr.
     - (* Str *) destruct T; try discriminate Hb; cbn in Hr; try (dead Hr); try reflexivity; cbn [inst infer_detailed infer recv] in *.
       + exact Hr.
       + exact Hr.
@@ -802,10 +805,11 @@ Fixpoint no_undef_entry (v : value) : bool :=
   | _ => true
   end.
 
-(* finite floats (finding C04/nonfinite-float-complete) *)
+(* a float value is the order key of a float: between the keys of -Inf and +Inf (types.VerifFloatKey; true of every
+   float the implementation can hold - not an exclusion, the infinities are inside) *)
 Fixpoint fin_val (v : value) : bool :=
   match v with
-  | VFloat k => in_size (- MaxF) MaxF k
+  | VFloat k => in_size (- InfF) InfF k
   | VArr vs => forallb fin_val vs
   | VHash es => forallb (fun e => fin_val (fst e) && fin_val (snd e)) es
   | VSensitive x => fin_val x
@@ -946,10 +950,12 @@ Section DetailedComplete.
     - (* Int *) destruct T; try discriminate Hb; cbn in Hi; try (dead Hi); try reflexivity. exact Hi.
     - (* Float *) unfold cv_ok in Hok. cbn [dv_ok no_undef_entry fin_val andb] in Hok.
       destruct T; try discriminate Hb; cbn in Hi; try (dead Hi); try reflexivity.
-      + exact Hi.
-      + (* ScalarData: its Float member is [-MaxFloat64, MaxFloat64] *)
+      + (* Float[lo, hi]: k is inside, or the range is unbounded and k is a float key *)
+        cbn [infer_detailed infer recv]. unfold in_size, float_unbounded, size_sub in *. lia.
+      + (* ScalarData: its Float member is the unbounded Float type *)
         cbn [infer_detailed infer recv flat flat_recv orb]. exact Hok.
-    - (* NaN *) unfold cv_ok in Hok. cbn in Hok. discriminate.
+    - (* NaN: an instance of the unbounded Float type only, which is its type *)
+      destruct T; try discriminate Hb; cbn in Hi; try (dead Hi); try reflexivity. exact Hi.
     - (* Str *) destruct T; try discriminate Hb; cbn in Hi; try (dead Hi); try reflexivity; cbn [infer_detailed infer recv].
       + exact Hi.
       + exact Hi.
